@@ -167,16 +167,17 @@ def render_contract(fn, lines_out, stub=False, trait_impl=False):
     return out
 
 
-def req_canary(fn, head, header, idx):
+def req_canary(fn, head, header, idx, where=''):
     """vacuity guard: `requires R ensures false` must FAIL, i.e. the declared preconditions of fn are satisfiable.
     Best effort: signatures with generics, `impl Trait` / `Self` / lifetime-carrying types are skipped."""
     if not fn.requires:
         return None
-    m = re.match(r'fn\s+\w+\s*\((.*)\)\s*$', head.strip(), re.S)
+    m = re.match(r'fn\s+\w+\s*(<[^()]*>)?\s*\((.*)\)\s*$', head.strip(), re.S)
     if not m:
         return None
+    gen_ = m.group(1) or ''
     out = []
-    for prm in _split_top(m.group(1)):
+    for prm in _split_top(m.group(2)):
         prm = ' '.join(prm.split())
         if not prm:
             continue
@@ -198,7 +199,7 @@ def req_canary(fn, head, header, idx):
     reqs = [clause(c, '')[1] for c in fn.requires]
     reqs = [re.sub(r'\bold\(\s*(\w+)\s*\)', r'\1', r) for r in reqs]
     reqs = [re.sub(r'\bself\b', 'self_', r) for r in reqs]
-    return 'proof fn canary_req_%d(%s) requires %s ensures false {} //@[canary.req.%s]' % (idx, ', '.join(out), ', '.join('(%s)' % r for r in reqs), fn.short)
+    return 'proof fn canary_req_%d%s(%s) %s requires %s ensures false {} //@[canary.req.%s]' % (idx, gen_, ', '.join(out), ' '.join(where.split()) if gen_ else '', ', '.join('(%s)' % r for r in reqs), fn.short)
 
 
 def wrap_tail(body, name, proof, path, pre=''):
@@ -349,7 +350,7 @@ class Gen:
         lines += render_contract(fn, lines, stub or outl, trait_impl=is_trait_impl)
         if not stub and not fn.outline and not fn.sig_sub:
             try:
-                cn = req_canary(fn, head, header, len(self.req_canaries) + 1)
+                cn = req_canary(fn, head, header, len(self.req_canaries) + 1, where)
             except Exception:
                 cn = None
             if cn:
@@ -853,7 +854,7 @@ def dedupe_spec(text):
         items_.append('\n'.join(cur))
     seen, out = set(), []
     for it in items_:
-        key = ' '.join(it.split())
+        key = ' '.join(' '.join(l for l in it.split('\n') if not l.strip().startswith('//')).split())     # doc comments do not make a definition different
         if key and key in seen:
             continue
         seen.add(key)
